@@ -3,6 +3,7 @@
 // @requires kv_main_track_peek.rs
 // @requires kv_mixer_peek.rs
 // @requires kv_storage_place.rs
+// @requires kv_send_track_peek.rs
 // C01 (final stage), C02/C11 (chunking), C05 (clock advance per chunk) on the REAL Renderer built
 // by create_resources(), with a probe Sound (public trait) on the main track.
 use crate::backend::resources::create_resources;
@@ -160,3 +161,7 @@ fn c16_renderer_rate_change_updates_dt_and_shared_rate() {
 	kani::cover!(rate == 48000, "w:48k");
 	std::mem::forget(r); std::mem::forget(c);
 }
+
+// (C11: a harness rendering a real SendTrack through the real Renderer on a remainder chunk - with a probe effect,
+// then with a volume tween as a stopwatch - ran out of memory in symbolic execution both times and was removed;
+// the seeded change C11-m2 is therefore NOT detected. See DESIGN.md A.7.)
